@@ -22,6 +22,7 @@ func c20(c *eng.Ctx, r *eng.Report) {
 		"R20.5 a BeforeExecute implementation mutates state only through ProcessFee; " +
 		"R20.6 a record is rewritten read-modify-write — UpdateMiner(m, db, false), which writes stake, account and status together, is given the record just read from the registry — and RemoveMiner erases the four slots only on the `left == 0` edge. " +
 		"R20.7 the stake total and the proposer set used for leader election grow together, by the record's own stake, only for non-nil records whose status is normal and whose ApplyHeight has been reached, and the proposer count is the size of that same set (no second walk with its own filter). " +
+		"R20.9 a refund never exceeds the stake: the subtraction `miner.Stake - money` in GetRefundStake happens only on the `miner.Stake >= money` edge (the fields are unsigned — a test of the difference against zero can never fire, the difference wraps to about 2^64 and the full amount is scheduled); " +
 		"R20.8 what AddMiner/AddStake check is what they record: no field of the miner record (account, id, type, stake) is assigned between the uniqueness lookups and UpdateMiner. " +
 		"Not decided: the sums themselves; equality of the three lookup results as values."
 	r.Assume = []string{"miner records live in the storage of ValidatorDBAddress/ProposerDBAddress only"}
@@ -34,6 +35,7 @@ func c20(c *eng.Ctx, r *eng.Report) {
 	c20Record(c, r)
 	c20Election(c, r)
 	c20CheckedIsRecorded(c, r)
+	c20RefundBounded(c, r)
 }
 
 func c20Layers(c *eng.Ctx, r *eng.Report) {
@@ -667,4 +669,41 @@ func c20CheckedIsRecorded(c *eng.Ctx, r *eng.Report) {
 		}
 		r.Check(bad == "", rule, "checked-is-recorded:"+name, c.Pos(fn.Pos()), "no field of the record is assigned after the uniqueness lookups", name+": "+bad+" — the value that is recorded is not the value that was looked up, so an application that leaves the field to its default slips past the `one miner per account / id` test (an account that already controls a miner registers a second one)")
 	}
+}
+
+// c20RefundBounded: unsigned arithmetic.
+func c20RefundBounded(c *eng.Ctx, r *eng.Report) {
+	const rule = "R20.9"
+	r.Min(rule, 1)
+	fn := c.Func("service", "(*RefundManager).GetRefundStake")
+	if !r.Anchor(fn != nil, rule, "(*RefundManager).GetRefundStake") {
+		return
+	}
+	n, bad := 0, ""
+	for _, b := range fn.Blocks {
+		for _, in := range b.Instrs {
+			bo, ok := in.(*ssa.BinOp)
+			if !ok || bo.Op != token.SUB || !strings.HasSuffix(eng.Desc(bo.X), ".Stake") {
+				continue
+			}
+			n++
+			guarded := false
+			for _, cd := range eng.CondsAt(bo) {
+				m, isM := cd.Cmp()
+				if !isM {
+					continue
+				}
+				if eng.Desc(m.X) == eng.Desc(bo.X) && eng.Desc(m.Y) == eng.Desc(bo.Y) && (m.Op == token.GEQ || m.Op == token.GTR) {
+					guarded = true
+				}
+				if eng.Desc(m.Y) == eng.Desc(bo.X) && eng.Desc(m.X) == eng.Desc(bo.Y) && (m.Op == token.LEQ || m.Op == token.LSS) {
+					guarded = true
+				}
+			}
+			if !guarded {
+				bad = eng.Desc(bo) + " at " + c.Pos(bo.Pos())
+			}
+		}
+	}
+	r.Check(bad == "" && n >= 1, rule, "refund:bounded-by-stake", c.Pos(fn.Pos()), "Stake - money only where Stake >= money", "GetRefundStake computes "+bad+" without the `Stake >= money` test in front of it: both are uint64, so asking for more than the stake wraps the recorded stake to about 2^64 and schedules the full amount for payout — tokens are created and the total proposer stake becomes enormous")
 }
